@@ -1,6 +1,7 @@
 package main
 
 import (
+	"sync/atomic"
 	"fmt"
 	"go/constant"
 	"go/types"
@@ -638,8 +639,17 @@ func (x *Exec) concretize(i Int, what string, limit int) int64 {
 
 // ---- heap writes with undo
 
+// abortAll is set by the memory watchdog: every path ends at its next basic block.
+var abortAll int32
+
+// maxUndo bounds the undo log of one path (16 workers: a runaway loop must not exhaust the machine's memory).
+const maxUndo = 2_000_000
+
 func (x *Exec) store(p *Value, v Value) {
 	if x.logUndo {
+		if len(x.undo) >= maxUndo {
+			panic(pathEnd{"bound-exceeded: steps"}) // same class as the step bound: a path that never settles
+		}
 		x.undo = append(x.undo, undoRec{p: p, old: *p})
 	}
 	*p = v
@@ -967,6 +977,9 @@ func (fr *frame) run() Value {
 		x.Steps += int64(len(blk.ins))
 		if x.Steps > x.maxSteps {
 			panic(pathEnd{"bound-exceeded: steps"})
+		}
+		if atomic.LoadInt32(&abortAll) != 0 {
+			panic(pathEnd{"bound-exceeded: memory (exploration abandoned)"})
 		}
 		for i := range blk.ins {
 			ci := &blk.ins[i]
